@@ -83,8 +83,11 @@ EXT_SIGNATURES = {
     "xarray.Variable": ("dims", "data", "attrs"),
     "xarray.DataArray": ("data", "coords", "dims", "name", "attrs"),
     "uuid.uuid5": ("namespace", "name"),
-    "scipy.signal.resample": ("x", "num", "t", "axis"),
-    "rasterio.features.rasterize": ("shapes", "out_shape", "fill"),
+    "scipy.signal.resample": ("x", "num", "t", "axis", "window", "domain"),
+    "scipy.signal.stft": ("x", "fs", "window", "nperseg", "noverlap", "nfft", "detrend", "return_onesided", "boundary", "padded", "axis", "scaling"),
+    "rasterio.features.rasterize": ("shapes", "out_shape", "fill", "out", "transform", "all_touched", "merge_alg", "default_value", "dtype", "skip_invalid"),
+    "numpy.swapaxes": ("a", "axis1", "axis2"),
+    "numpy.moveaxis": ("a", "source", "destination"),
 }
 
 # documented default values of options of third-party / builtin callables (trusted): a keyword that passes the default is the
@@ -408,6 +411,30 @@ def OR(*ts):
     for x in out:
         if NOT(x) in out:
             return TRUE
+    # absorption: a or (a and b) == a ; complement: a or (not a and b) == a or b
+    if len(out) > 1 and any(x[0] == "and" for x in out):
+        changed = True
+        while changed:
+            changed = False
+            for i, x in enumerate(out):
+                if x[0] != "and":
+                    continue
+                others = out[:i] + out[i + 1:]
+                if any(d in x[1] for d in others):
+                    out = others
+                    changed = True
+                    break
+                keep = [c for c in x[1] if NOT(c) not in others]
+                if len(keep) < len(x[1]):
+                    repl = AND(*keep)
+                    if repl == TRUE:
+                        return TRUE
+                    out = out[:i] + [d for d in (repl[1] if repl[0] == "or" else (repl,)) if d not in others] + out[i + 1:]
+                    changed = True
+                    break
+        for x in out:
+            if NOT(x) in out:
+                return TRUE
     if not out:
         return FALSE
     if len(out) == 1:
@@ -1172,6 +1199,9 @@ class Evaluator:
         if isinstance(st, ast.For):
             return self.for_(st, live)
         if isinstance(st, ast.While):
+            counted = self._counted_while(st)
+            if counted is not None:
+                return self.for_(counted, live)
             return self.while_(st, live)
         if isinstance(st, ast.Try):
             return self.try_(st, live)
@@ -2780,6 +2810,29 @@ class Evaluator:
             parts = self._format_parts(f[1][1], args, dict(named))
             if parts is not None:
                 return ("fstr", tuple(parts))
+        # ":".join(["a", str(x), str(y)]) over a display of constants and str(...) items is the f-string f"a:{x}:{y}"
+        if f[0] == "attr" and f[2] == "join" and f[1][0] == "const" and isinstance(f[1][1], str) and plain and len(args) == 1 \
+                and args[0][0] in ("list", "tuple") and args[0][1] and all(
+                    (x[0] == "const" and isinstance(x[1], str)) or (x[0] == "call" and x[1] == ("builtin", "str") and len(x[2]) == 1 and not x[3])
+                    or x[0] == "fstr" for x in args[0][1]):
+            parts = []
+
+            def push(x):
+                if x[0] == "const" and parts and parts[-1][0] == "const":
+                    parts[-1] = ("const", parts[-1][1] + x[1])
+                elif not (x[0] == "const" and x[1] == ""):
+                    parts.append(x)
+            for k_, x in enumerate(args[0][1]):
+                if k_:
+                    push(("const", f[1][1]))
+                if x[0] == "const":
+                    push(x)
+                elif x[0] == "fstr":
+                    for y in x[1]:
+                        push(y)
+                else:
+                    push(x[2][0])
+            return ("fstr", tuple(parts))
         return None
 
     @staticmethod
@@ -2939,7 +2992,7 @@ class Evaluator:
             return None
         return module, node, f"{modname}:{fname}" + ("@reference" if force else ""), cls, selfterm
 
-    def _prepare_inline(self, f, call_term):
+    def _prepare_inline(self, f, call_term, generator_ok=False):
         """Resolve, summarise and instantiate a helper call: -> (callee summary, inst(term), id map, qual) or None.
         Registers the callee's loops / tries / lambdas (renamed) in this evaluator."""
         if f[0] == "lambda" and f[1] in self.lambdas and self.lambdas[f[1]].is_generator:
@@ -3004,8 +3057,8 @@ class Evaluator:
                 if p not in cs.defaults:
                     return None
                 bound[("param", p)] = cs.defaults[p]
-        if any(r.loops for r in cs.returns):
-            return None  # a return from inside a loop has no value term
+        if any(r.loops for r in cs.returns) and not (generator_ok and cs.is_generator):
+            return None  # a return from inside a loop has no value term (in a generator it ends the iteration: see _splice_generator)
         self._n += 1
         tag = f"i{self._n}"
         idmap: Dict[str, str] = {}
@@ -3232,7 +3285,7 @@ class Evaluator:
         itself iterates another such generator (a pipeline) is spliced recursively.  None = not that form."""
         if depth > 3 or call_term[0] != "call" or not self._is_helper_generator(call_term[1]):
             return None
-        prep = self._prepare_inline(call_term[1], call_term)
+        prep = self._prepare_inline(call_term[1], call_term, generator_ok=True)
         if prep is None:
             return None
         cs, inst, idmap, qual = prep
@@ -3240,6 +3293,11 @@ class Evaluator:
         if not cs.is_generator or len(ys) != 1 or not ys[0].loops:
             return None
         y = ys[0]
+        # `return` inside the generator's loop ends the iteration: it is the consumer loop's `break` -- before the yield only (after
+        # it, the consumer's body would have to run first); a `return` in front of the loop (no elements at all) is not read
+        rets_ = [e for e in cs.of("return") if e.node is not None and isinstance(e.node, ast.Return)]
+        if any((e.idx > y.idx and e.loops) or (e.idx < y.idx and not e.loops) or (e.loops and tuple(e.loops) != tuple(y.loops[:len(e.loops)])) for e in rets_):
+            return None
         after = [e for e in cs.events if e.idx > y.idx and e.kind != "return"]
         if any(e.kind in ("store", "call", "raise", "yield") and set(y.loops) & set(e.loops) for e in after):
             return None  # work after the yield inside the loop would have to run after the consumer's body
@@ -3273,6 +3331,9 @@ class Evaluator:
             return tuple(out)
 
         for e in cs.events:
+            if e.idx < y.idx and e.kind == "return" and e.loops:
+                import dataclasses as _dc
+                e = _dc.replace(e, kind="break", term=NONE)
             if e.idx < y.idx and e.kind != "return":
                 ne = self._reemit(e, live, inst2, idmap, qual)
                 ne.loops = tuple(self.loop_stack) + flat(tuple(idmap.get(x, x) for x in e.loops))
@@ -3384,6 +3445,54 @@ class Evaluator:
         for e, inst_, idmap_, qual_ in post:
             self._reemit(e, live, inst_, idmap_, qual_)
         return live
+
+    def _counted_while(self, st):
+        """`i = c; while i < n: BODY` where BODY advances i by one exactly once, at its top level, and leaves n alone is
+        `for i' in range(c, n): i = i'; BODY` (the increment stays in BODY: what follows it sees i + 1, and after the loop i has the
+        value the while loop leaves).  None when the loop has another shape."""
+        t = st.test
+        if st.orelse or not (isinstance(t, ast.Compare) and len(t.ops) == 1 and isinstance(t.ops[0], ast.Lt) and isinstance(t.left, ast.Name)):
+            return None
+        name = t.left.id
+        init = self.env.get(name)
+        if init is None or init[0] != "const" or not isinstance(init[1], int) or isinstance(init[1], bool):
+            return None
+        bound = t.comparators[0]
+        steps = []
+        for k, b in enumerate(st.body):
+            if isinstance(b, ast.AugAssign) and isinstance(b.target, ast.Name) and b.target.id == name and isinstance(b.op, ast.Add) \
+                    and isinstance(b.value, ast.Constant) and b.value.value == 1:
+                steps.append(k)
+            elif isinstance(b, ast.Assign) and len(b.targets) == 1 and isinstance(b.targets[0], ast.Name) and b.targets[0].id == name \
+                    and ast.unparse(b.value) in (f"{name} + 1", f"1 + {name}"):
+                steps.append(k)
+        if len(steps) != 1:
+            return None
+        k = steps[0]
+        # no other store of the counter; the bound's names are neither stored nor called upon in the body; no `continue` in front of the step
+        bnames = {x.id for x in ast.walk(bound) if isinstance(x, ast.Name)}
+        for j, b in enumerate(st.body):
+            for x in ast.walk(b):
+                if isinstance(x, ast.Name) and isinstance(x.ctx, (ast.Store, ast.Del)) and (x.id in bnames or (x.id == name and j != k)):
+                    return None
+                if isinstance(x, ast.NamedExpr) and isinstance(x.target, ast.Name) and x.target.id in bnames | {name}:
+                    return None
+                if isinstance(x, ast.Call) and isinstance(x.func, ast.Attribute) and isinstance(x.func.value, ast.Name) and x.func.value.id in bnames \
+                        and isinstance(b, ast.Expr):
+                    return None
+                if isinstance(x, ast.Continue) and j < k:
+                    return None
+                if isinstance(x, (ast.FunctionDef, ast.Lambda)):
+                    return None
+        it = ast.Name(id=f"{name}__it", ctx=ast.Store())
+        rng = ast.Call(func=ast.Name(id="range", ctx=ast.Load()), args=([] if init[1] == 0 else [ast.Constant(value=init[1])]) + [bound], keywords=[])
+        bind = ast.Assign(targets=[ast.Name(id=name, ctx=ast.Store())], value=ast.Name(id=f"{name}__it", ctx=ast.Load()))
+        new = ast.For(target=it, iter=rng, body=[bind] + list(st.body), orelse=[])
+        ast.copy_location(new, st)
+        for x in (it, rng, bind):
+            ast.copy_location(x, st)
+        ast.fix_missing_locations(new)
+        return new
 
     def _comp_unrolled(self, n, live, kind, elt_fn):
         """[f(x) for x in (a, b, c)] over a literal display is the display [f(a), f(b), f(c)] (list / set / dict); a generator
@@ -3589,7 +3698,11 @@ def sym_term(s: Sym) -> tuple:
     if s.kind in ("class", "assign") and ":" in s.qual:
         # likewise a class / a module-level table that moved
         from .index import Index as _Ix
-        return ("global", _Ix.canonical_qual(getattr(s.module, "index", None), s.kind, s.qual), s.kind)
+        q_ = _Ix.canonical_qual(getattr(s.module, "index", None), s.kind, s.qual)
+        v_ = getattr(s.node, "value", None) if s.kind == "assign" else None
+        if s.kind == "class" or (isinstance(v_, ast.Constant) and v_.value is not None) or isinstance(v_, (ast.Dict, ast.List, ast.Tuple, ast.Set, ast.DictComp, ast.ListComp)):
+            NOT_NONE_GLOBALS.add(q_)  # a module-level constant / table / class: never None (`MAX_FREQUENCY is not None` after inlining)
+        return ("global", q_, s.kind)
     return ("global", s.qual, s.kind)
 
 
@@ -3818,6 +3931,9 @@ def _ite_of_displays(t):
     return all(x[0] == "dict" and all(kk[0] == "const" and isinstance(kk[1], str) for kk, _ in x[1]) for x in _ite_leaves(t))
 
 
+NOT_NONE_GLOBALS = set()
+
+
 def fold_sub(t):
     """`(a, b)[0]` -> a and `getattr(x, "name")` -> x.name after a substitution made the container / name explicit."""
     if not isinstance(t, tuple) or not t:
@@ -3828,8 +3944,15 @@ def fold_sub(t):
         # `None is None` after a default was substituted for a parameter
         same = t[2][1] is None and t[3][1] is None
         return TRUE if (same if t[1] == "is" else not same) else FALSE
+    if t and t[0] == "cmp" and t[1] in ("is", "isnot") and len(t) == 4 and t[3] == NONE and t[2][0] == "global" and t[2][1] in NOT_NONE_GLOBALS:
+        return FALSE if t[1] == "is" else TRUE
     if t and t[0] == "ite" and len(t) == 4 and t[1] in (TRUE, FALSE):
         return t[2] if t[1] == TRUE else t[3]
+    if t and t[0] in ("and", "or") and len(t) == 2 and any(x in (TRUE, FALSE) for x in t[1]):
+        # a test decided by the substitution (`lower is not None` with lower=0): the connective is rebuilt without it
+        return fold_sub(AND(*t[1]) if t[0] == "and" else OR(*t[1]))
+    if t and t[0] == "ite" and len(t) == 4 and t[1][0] == "cmp" and t[1][1] == "lt" and {t[2], t[3]} == {t[1][2], t[1][3]} and t[2] != t[3]:
+        return ITE(t[1], t[2], t[3])  # `lower if value < lower else value` after inlining: max / min
     if t and t[0] == "bin" and t[1] == "+" and t[2][0] == "const" and t[3][0] == "const" and isinstance(t[2][1], str) \
             and isinstance(t[3][1], str):
         return ("const", t[2][1] + t[3][1])
